@@ -65,7 +65,8 @@ def mirror_job(pre_filled, spec_text, mirror, name="mirror_layout"):
                note="C mirror structs used in the contracts have the same field offsets and stride as CBMC's layout of the C++ prelude classes")
 
 
-def fill(pre, position=None, uposition=None, slack=None, solver_extra="", inc_extra="", block_extra=""):
+def fill(pre, position=None, uposition=None, slack=None, solver_extra="", inc_extra="", block_extra="", flavour="libvpsc"):
+    pre = pre.replace("@SOLVER_CLASSES@", prelude("vpsc_solver_%s.h" % flavour))
     return (pre.replace("@SLICE:Variable::position@", position)
                .replace("@SLICE:Variable::unscaledPosition@", uposition)
                .replace("@SLICE:Constraint::slack@", slack)
@@ -79,6 +80,7 @@ def struct_cast(fields_c, ptr="this"):
 
 INC_ANON = "void*vptr;void*bs;unsigned long m;"
 THIS_M = "((struct{%s}__attribute__((packed))*)this)->m" % INC_ANON
+THIS_M_AVOID = "((struct{unsigned splitCnt;void*bs;unsigned long m;}__attribute__((packed))*)this)->m"
 
 
 REPLAY_SRC = r'''
@@ -176,6 +178,30 @@ int main() {
 '''
 
 
+def _avoid_src(src):
+    """The same replay scenarios against libavoid's private copy of the solver (namespace Avoid, IncSolver only)."""
+    src = src.replace('#include "libvpsc/solve_VPSC.h"\n#include "libvpsc/variable.h"\n#include "libvpsc/constraint.h"', '#include "libavoid/vpsc.h"')
+    src = src.replace("using namespace vpsc;", "using namespace Avoid;")
+    src = src.replace('  stale_active<Solver>("Solver::satisfy with a stale active flag", false);\n', '')
+    return src
+
+
+def replay_scan_avoid(job, obl, inputs, workdir):
+    lib = build_lib("libavoid", workdir)
+    rc, out = native_run(_avoid_src(REPLAY_SRC), workdir, "replay_vpsc_avoid", extra=["-I", COLA], libs=[lib])
+    if rc is None:
+        return False, out
+    return rc == 1, out
+
+
+def replay_flag_avoid(job, obl, inputs, workdir):
+    lib = build_lib("libavoid", workdir, extra=("-O1",))
+    rc, out = native_run(_avoid_src(REPLAY_FLAG), workdir, "replay_flag_avoid", extra=["-I", COLA, "-O1"], libs=[lib], timeout=600)
+    if rc is None:
+        return False, out
+    return rc == 1, out
+
+
 def replay_flag(job, obl, inputs, workdir):
     lib = build_lib("libvpsc", workdir, extra=("-O1",))
     rc, out = native_run(REPLAY_FLAG, workdir, "replay_flag", extra=["-I", COLA, "-O1"], libs=[lib], timeout=600)
@@ -184,27 +210,39 @@ def replay_flag(job, obl, inputs, workdir):
     return rc == 1, out
 
 
-def jobs(tier):
+def _jobs(tier, fl):
+    AV = (fl == "libavoid")
+    SV = "libavoid/vpsc.cpp" if AV else "libvpsc/solve_VPSC.cpp"
+    VH = CH = "libavoid/vpsc.h" if AV else None
+    if not AV:
+        VH, CH = "libvpsc/variable.h", "libvpsc/constraint.h"
     js = []
-    pre = prelude("vpsc.h")
+    pre = prelude("vpsc.h").replace("@SOLVER_CLASSES@", prelude("vpsc_solver_%s.h" % fl))
     S = {}
     S["position"] = slice_func(VH, r'^\s*inline double position\(void\) const', "Variable::position")
     S["uposition"] = slice_func(VH, r'^\s*inline double unscaledPosition\(void\) const', "Variable::unscaledPosition")
     S["slack"] = slice_func(CH, r'^\s*inline double slack\(void\) const', "Constraint::slack")
     S["zero"] = slice_lines(SV, r'^static const double ZERO_UPPERBOUND=-1e-10;', 1, "ZERO_UPPERBOUND")
     S["using"] = slice_lines(SV, r'^using namespace std;', 1, "using namespace std")
-    S["copyResult"] = slice_func(SV, r'^void Solver::copyResult\(\)', "Solver::copyResult")
+    S["copyResult"] = slice_func(SV, r'^void %s::copyResult\(\)' % ("IncSolver" if AV else "Solver"), ("IncSolver" if AV else "Solver") + "::copyResult")
     S["incsatisfy"] = slice_func(SV, r'^bool IncSolver::satisfy\(\)', "IncSolver::satisfy")
-    S["satisfy"] = slice_func(SV, r'^bool Solver::satisfy\(\)', "Solver::satisfy")
-    S["refine"] = slice_func(SV, r'^void Solver::refine\(\)', "Solver::refine")
-    S["solve"] = slice_func(SV, r'^bool Solver::solve\(\)', "Solver::solve")
+    if not AV:
+        S["satisfy"] = slice_func(SV, r'^bool Solver::satisfy\(\)', "Solver::satisfy")
+        S["refine"] = slice_func(SV, r'^void Solver::refine\(\)', "Solver::refine")
+        S["solve"] = slice_func(SV, r'^bool Solver::solve\(\)', "Solver::solve")
     S["incsolve"] = slice_func(SV, r'^bool IncSolver::solve\(\)', "IncSolver::solve")
     S["addConstraint"] = slice_func(SV, r'^void IncSolver::addConstraint\(Constraint \*c\)', "IncSolver::addConstraint")
 
     real_filled = fill(pre, S["position"].text, S["uposition"].text, S["slack"].text)
-    layout.check_layout("vpsc", real_filled,
-                        ["libvpsc/variable.h", "libvpsc/constraint.h", "libvpsc/block.h", "libvpsc/blocks.h", "libvpsc/solve_VPSC.h"],
-                        LAYOUT_FIELDS, sizes=LAYOUT_SIZES)
+    if AV:
+        tr = lambda t: t.replace("vpsc::", "Avoid::")
+        layout.check_layout("avoid_vpsc", real_filled.replace("namespace vpsc", "namespace Avoid"), ["libavoid/vpsc.h"],
+                            [(tr(t), f) for t, f in LAYOUT_FIELDS if t not in ("vpsc::Solver", "vpsc::Blocks")] + [("Avoid::IncSolver", ["bs", "m", "n", "needsScaling"])],
+                            sizes=[tr(t) for t in LAYOUT_SIZES if t not in ("vpsc::Solver", "vpsc::Blocks")])
+    else:
+        layout.check_layout("vpsc", real_filled,
+                            ["libvpsc/variable.h", "libvpsc/constraint.h", "libvpsc/block.h", "libvpsc/blocks.h", "libvpsc/solve_VPSC.h"],
+                            LAYOUT_FIELDS, sizes=LAYOUT_SIZES)
     spec = spec_header() + rd(HERE, "vpsc.spec.c")
     base = "#include <verif_base.h>\n"
     js.append(mirror_job(real_filled, spec, MIRROR))
@@ -229,12 +267,12 @@ def jobs(tier):
                   expect=[r'w_slack\.postcondition', r'precondition', r'assertion']))
     # ---- scan tails
     shim_filled = fill(pre, SHIM_POSITION, SHIM_UPOSITION, SHIM_SLACK,
-                       solver_extra="\tbool verif_satisfy_tail();\n\tvoid verif_refine_tail();\n",
+                       solver_extra="" if AV else "\tbool verif_satisfy_tail();\n\tvoid verif_refine_tail();\n",
                        inc_extra="\tbool verif_incsatisfy_tail();\n")
     callee_shims = ("void Blocks::cleanup() { w_blocks_cleanup((void *)this); }\n"
                     "double Blocks::cost() { return w_blocks_cost((void *)this); }\n"
                     "size_t Blocks::size() const { return w_blocks_size((void *)this); }\n")
-    cr_shim = "void Solver::copyResult() { w_copyResult((void *)this); }\n"
+    cr_shim = "void %s::copyResult() { w_copyResult((void *)this); }\n" % ("IncSolver" if AV else "Solver")
 
     def tail_tu(member, ret, locals_, tail_text, wrapper):
         return (base + EXTERN + shim_filled + S["using"].text + "\nnamespace vpsc {\n" + S["zero"].text + "\n" +
@@ -242,11 +280,11 @@ def jobs(tier):
 
     # IncSolver::satisfy: tail from `bs->cleanup();`
     t = fragment_tail(S["incsatisfy"], r'bs->cleanup\(\);', "IncSolver::satisfy [tail from bs->cleanup()]")
-    ttext = subst(t, [(r'throw \(char \*\) s\.str\(\)\.c_str\(\);', '{ verif_thrown = 1; return false; }', 1)])
+    ttext = subst(t, [(r'throw (?:\(char \*\) )?s\.str\(\)\.c_str\(\);', '{ verif_thrown = 1; return false; }', 1)])
     def scan_loop(sym, imap):
         return loops_file([loop_contract(sym, 0,
-                                         "i <= %s && (verif_K_idx < i ==> !(verif_Kslack < -1e-10))" % THIS_M,
-                                         ", ".join(k for k in imap if k != "this"), "%s - i" % THIS_M, imap)])
+                                         "i <= %s && (verif_K_idx < i ==> !(verif_Kslack < -1e-10))" % (THIS_M_AVOID if AV else THIS_M),
+                                         ", ".join(k for k in imap if k != "this"), "%s - i" % (THIS_M_AVOID if AV else THIS_M), imap)])
     js.append(Job("incsatisfy_tail", "U", spec, "h_incsatisfy_tail", replay=replay_scan,
                   cxx=tail_tu("IncSolver::verif_incsatisfy_tail", "bool", "    Constraint* v = nullptr;", ttext,
                               'extern "C" bool w_incsatisfy_tail(void *s, size_t K) { '
@@ -258,35 +296,36 @@ def jobs(tier):
                   no_pointer_check=True,
                   domain="every solver state, every m in [1,10^6], ghost constraint index K < m",
                   expect=[r'postcondition', r'loop_invariant_base', r'loop_invariant_step', r'loop_decreases']))
-    # Solver::satisfy: tail from `bs->cleanup();`  (the prefix's local list is deleted in the tail: dropped)
-    t2 = fragment_tail(S["satisfy"], r'bs->cleanup\(\);', "Solver::satisfy [tail from bs->cleanup()]")
-    t2text = subst(t2, [(r'throw UnsatisfiedConstraint\(\*cs\[i\]\);', '{ verif_thrown = 1; return false; }', 1),
-                        (r'delete vList;', '/* delete vList; (local of the dropped prefix) */', 1)])
-    js.append(Job("satisfy_tail", "U", spec, "h_satisfy_tail", replay=replay_scan,
-                  cxx=tail_tu("Solver::verif_satisfy_tail", "bool", "", t2text,
-                              'extern "C" bool w_satisfy_tail(void *s, size_t K) { return ((vpsc::Solver *)s)->verif_satisfy_tail(); }\n'),
-                  enforce="w_satisfy_tail", replace=["w_slack", "w_blocks_cleanup", "w_copyResult"],
-                  defines=["JOB_satisfy_tail", "CALLEES_GHOST"], slices=[S["satisfy"], t2],
-                  loops=scan_loop("vpsc::Solver::verif_satisfy_tail(this)",
-                                  {"i": "1::1::i", "activeConstraints": "1::activeConstraints", "this": "this"}),
-                  no_pointer_check=True,
-                  domain="every solver state, every m in [1,10^6], ghost constraint index K < m",
-                  expect=[r'postcondition', r'loop_invariant_base', r'loop_invariant_step', r'loop_decreases']))
-    # Solver::refine: tail = the final scan loop
-    t3 = fragment_tail(S["refine"], r'for\(unsigned i=0;i<m;i\+\+\) \{\s*if\(cs\[i\]->slack\(\) < ZERO_UPPERBOUND\)', "Solver::refine [tail: final scan]")
-    # the COLA_ASSERT inside the throwing branch restates the branch condition negated: it is the code's claim that
-    # the branch is never reached (C01 completeness, undecided); reaching it is an abnormal exit like the throw
-    t3text = subst(t3, [(r'COLA_ASSERT\(cs\[i\]->slack\(\)>ZERO_UPPERBOUND\);', '{ verif_thrown = 1; return; } /* assertion = abnormal exit */', 1),
-                        (r'throw UnsatisfiedConstraint\(\*cs\[i\]\);', '{ verif_thrown = 1; return; }', 1)])
-    js.append(Job("refine_tail", "U", spec, "h_refine_tail", replay=replay_scan,
-                  cxx=tail_tu("Solver::verif_refine_tail", "void", "", t3text,
-                              'extern "C" void w_refine_tail(void *s, size_t K) { ((vpsc::Solver *)s)->verif_refine_tail(); }\n'),
-                  enforce="w_refine_tail", replace=["w_slack"],
-                  defines=["JOB_refine_tail", "CALLEES_GHOST"], slices=[S["refine"], t3],
-                  loops=scan_loop("vpsc::Solver::verif_refine_tail(this)", {"i": "1::1::i", "this": "this"}),
-                  no_pointer_check=True,
-                  domain="every solver state, every m in [1,10^6], ghost constraint index K < m",
-                  expect=[r'postcondition', r'loop_invariant_base', r'loop_invariant_step', r'loop_decreases']))
+    if not AV:
+        # Solver::satisfy: tail from `bs->cleanup();`  (the prefix's local list is deleted in the tail: dropped)
+        t2 = fragment_tail(S["satisfy"], r'bs->cleanup\(\);', "Solver::satisfy [tail from bs->cleanup()]")
+        t2text = subst(t2, [(r'throw UnsatisfiedConstraint\(\*cs\[i\]\);', '{ verif_thrown = 1; return false; }', 1),
+                            (r'delete vList;', '/* delete vList; (local of the dropped prefix) */', 1)])
+        js.append(Job("satisfy_tail", "U", spec, "h_satisfy_tail", replay=replay_scan,
+                      cxx=tail_tu("Solver::verif_satisfy_tail", "bool", "", t2text,
+                                  'extern "C" bool w_satisfy_tail(void *s, size_t K) { return ((vpsc::Solver *)s)->verif_satisfy_tail(); }\n'),
+                      enforce="w_satisfy_tail", replace=["w_slack", "w_blocks_cleanup", "w_copyResult"],
+                      defines=["JOB_satisfy_tail", "CALLEES_GHOST"], slices=[S["satisfy"], t2],
+                      loops=scan_loop("vpsc::Solver::verif_satisfy_tail(this)",
+                                      {"i": "1::1::i", "activeConstraints": "1::activeConstraints", "this": "this"}),
+                      no_pointer_check=True,
+                      domain="every solver state, every m in [1,10^6], ghost constraint index K < m",
+                      expect=[r'postcondition', r'loop_invariant_base', r'loop_invariant_step', r'loop_decreases']))
+        # Solver::refine: tail = the final scan loop
+        t3 = fragment_tail(S["refine"], r'for\(unsigned i=0;i<m;i\+\+\) \{\s*if\(cs\[i\]->slack\(\) < ZERO_UPPERBOUND\)', "Solver::refine [tail: final scan]")
+        # the COLA_ASSERT inside the throwing branch restates the branch condition negated: it is the code's claim that
+        # the branch is never reached (C01 completeness, undecided); reaching it is an abnormal exit like the throw
+        t3text = subst(t3, [(r'COLA_ASSERT\(cs\[i\]->slack\(\)>ZERO_UPPERBOUND\);', '{ verif_thrown = 1; return; } /* assertion = abnormal exit */', 1),
+                            (r'throw UnsatisfiedConstraint\(\*cs\[i\]\);', '{ verif_thrown = 1; return; }', 1)])
+        js.append(Job("refine_tail", "U", spec, "h_refine_tail", replay=replay_scan,
+                      cxx=tail_tu("Solver::verif_refine_tail", "void", "", t3text,
+                                  'extern "C" void w_refine_tail(void *s, size_t K) { ((vpsc::Solver *)s)->verif_refine_tail(); }\n'),
+                      enforce="w_refine_tail", replace=["w_slack"],
+                      defines=["JOB_refine_tail", "CALLEES_GHOST"], slices=[S["refine"], t3],
+                      loops=scan_loop("vpsc::Solver::verif_refine_tail(this)", {"i": "1::1::i", "this": "this"}),
+                      no_pointer_check=True,
+                      domain="every solver state, every m in [1,10^6], ghost constraint index K < m",
+                      expect=[r'postcondition', r'loop_invariant_base', r'loop_invariant_step', r'loop_decreases']))
     # ---- solve() drivers: satisfy/refine/copyResult/cost/size replaced by their contracts
     drv_filled = fill(pre, SHIM_POSITION, SHIM_UPOSITION, SHIM_SLACK)
     def drv_tu(extra_shims, sl, wrapper):
@@ -303,12 +342,13 @@ def jobs(tier):
                                                   {"lastcost": "1::lastcost", "cost": "1::cost"})]),
                   domain="every solver state; termination of the cost loop not claimed",
                   expect=[r'w_incsolve\.postcondition', r'loop_invariant_base', r'loop_invariant_step']))
-    js.append(Job("solve", "U", spec, "h_solve",
-                  cxx=drv_tu("bool Solver::satisfy() { return w_satisfy((void *)this); }\nvoid Solver::refine() { w_refine((void *)this); }\n",
-                             S["solve"], 'extern "C" bool w_solve(void *s) { return ((vpsc::Solver *)s)->solve(); }\n'),
-                  enforce="w_solve", replace=["w_satisfy", "w_refine", "w_copyResult", "w_blocks_size"],
-                  defines=["JOB_solve"], slices=[S["solve"]], domain="every solver state",
-                  expect=[r'w_solve\.postcondition']))
+    if not AV:
+        js.append(Job("solve", "U", spec, "h_solve",
+                      cxx=drv_tu("bool Solver::satisfy() { return w_satisfy((void *)this); }\nvoid Solver::refine() { w_refine((void *)this); }\n",
+                                 S["solve"], 'extern "C" bool w_solve(void *s) { return ((vpsc::Solver *)s)->solve(); }\n'),
+                      enforce="w_solve", replace=["w_satisfy", "w_refine", "w_copyResult", "w_blocks_size"],
+                      defines=["JOB_solve"], slices=[S["solve"]], domain="every solver state",
+                      expect=[r'w_solve\.postcondition']))
     # ---- copyResult: loop body fragment (unbounded, one arbitrary element) + whole loop (bounded)
     hdr, body = fragment_loop(S["copyResult"], r'for\(Variables::const_iterator i=vs\.begin\(\);i!=vs\.end\(\);\+\+i\)',
                               "Solver::copyResult [loop body]")
@@ -321,7 +361,7 @@ def jobs(tier):
                   expect=[r'postcondition', r'assigns', r'assertion']))
     nmax = 4 if tier == "quick" else 6
     loop_cxx = (base + real_filled + "namespace vpsc {\n" + S["copyResult"].text + "\n}\n"
-                'extern "C" void w_copyResult(void *s) { ((vpsc::Solver *)s)->copyResult(); }\n')
+                'extern "C" void w_copyResult(void *s) { ((vpsc::%s *)s)->copyResult(); }\n' % ("IncSolver" if AV else "Solver"))
     js.append(Job("copyResult_loop", "B", spec, "h_copyResult_loop", cxx=loop_cxx, defines=["JOB_copyResult_loop", "NMAX=%d" % nmax],
                   unwind=nmax + 2, bound="n <= %d variables (unwind %d, unwinding assertions on)" % (nmax, nmax + 2),
                   slices=[S["copyResult"], S["position"]], domain="n <= %d distinct variables, integer-valued positions, scale 1" % nmax,
@@ -333,14 +373,15 @@ def jobs(tier):
                   defines=["JOB_addConstraint"], slices=[S["addConstraint"]],
                   domain="every solver/constraint state; stub vectors with spare capacity (no reallocation model)",
                   expect=[r'postcondition', r'assigns']))
-    # ---- Solver::Solver: construction facts the chain relies on (body fragment unbounded + whole constructor bounded)
-    S["ctor"] = slice_func(SV, r'^Solver::Solver\(Variables const &vs, Constraints const &cs\)', "Solver::Solver")
-    h1, cb1 = fragment_loop(S["ctor"], r'for\(unsigned i=0;i<n;\+\+i\)', "Solver::Solver [first loop body]")
-    ctor_filled = fill(pre, SHIM_POSITION, SHIM_UPOSITION, SHIM_SLACK, solver_extra="\tvoid verif_ctor_body1(unsigned i);\n")
-    b1_cxx = (base + EXTERN + ctor_filled + "namespace vpsc {\nvoid Solver::verif_ctor_body1(unsigned i)\n" + body_continue_to_return(cb1) + "\n}\n"
-              'extern "C" void w_ctor_body1(void *s, unsigned i) { ((vpsc::Solver *)s)->verif_ctor_body1(i); }\n')
-    js.append(Job("Solver_ctor_body1", "U", spec, "h_ctor_body1", cxx=b1_cxx, enforce="w_ctor_body1", defines=["JOB_ctor_body1"], slices=[S["ctor"], cb1],
-                  domain="one arbitrary variable of a vector of any length", expect=[r'postcondition', r'assigns']))
+    if not AV:
+        # ---- Solver::Solver: construction facts the chain relies on (body fragment unbounded + whole constructor bounded)
+        S["ctor"] = slice_func(SV, r'^Solver::Solver\(Variables const &vs, Constraints const &cs\)', "Solver::Solver")
+        h1, cb1 = fragment_loop(S["ctor"], r'for\(unsigned i=0;i<n;\+\+i\)', "Solver::Solver [first loop body]")
+        ctor_filled = fill(pre, SHIM_POSITION, SHIM_UPOSITION, SHIM_SLACK, solver_extra="\tvoid verif_ctor_body1(unsigned i);\n")
+        b1_cxx = (base + EXTERN + ctor_filled + "namespace vpsc {\nvoid Solver::verif_ctor_body1(unsigned i)\n" + body_continue_to_return(cb1) + "\n}\n"
+                  'extern "C" void w_ctor_body1(void *s, unsigned i) { ((vpsc::Solver *)s)->verif_ctor_body1(i); }\n')
+        js.append(Job("Solver_ctor_body1", "U", spec, "h_ctor_body1", cxx=b1_cxx, enforce="w_ctor_body1", defines=["JOB_ctor_body1"], slices=[S["ctor"], cb1],
+                      domain="one arbitrary variable of a vector of any length", expect=[r'postcondition', r'assigns']))
     # ---- IncSolver::satisfy: one iteration of the merge/split loop, callees behind ghost-cell contracts: flags only on evidence
     hdrm, mb = fragment_loop(S["incsatisfy"], r'while \( \(v = mostViolated\(inactive\)\) &&', "IncSolver::satisfy [merge/split loop body]")
     mb.text = body_continue_to_return(mb)
@@ -364,7 +405,25 @@ def jobs(tier):
                   defines=["JOB_flag_on_evidence"], slices=[S["incsatisfy"], mb],
                   domain="every solver/constraint state, every outcome of the callees (cycle found or not, split result null or not, exception or not)",
                   expect=[r'h_merge_body\.assertion'], replay=replay_flag))
+    if AV:
+        # the libavoid copy lives in namespace Avoid: generated wrappers/shims and loop-contract symbols are renamed accordingly
+        import json as _json
+        for j in js:
+            j.name = "libavoid_" + j.name
+            j.cxx = j.cxx.replace("namespace vpsc", "namespace Avoid").replace("vpsc::", "Avoid::")
+            j.defines = list(j.defines) + ["FLAVOUR_AVOID"]
+            if j.loops:
+                j.loops = _json.loads(_json.dumps(j.loops).replace("vpsc::", "Avoid::").replace("vpsc\\\\:\\\\:", "Avoid\\\\:\\\\:"))
+            j.domain = "[libavoid's private copy of the solver, libavoid/vpsc.cpp] " + j.domain
+            if j.replay is replay_scan:
+                j.replay = replay_scan_avoid
+            elif j.replay is replay_flag:
+                j.replay = replay_flag_avoid
     return js
+
+
+def jobs(tier):
+    return _jobs(tier, "libvpsc") + _jobs(tier, "libavoid")
 
 
 LEVEL = "proof"
@@ -387,7 +446,9 @@ ASSUMPTIONS = [
     "NOT decided (residue): completeness (a feasible system is never flagged/thrown on; cyclic ones are flagged), finiteness (a NaN slack passes the scan), "
     "tightness of active constraints after Block::merge, histories beyond single calls, termination of IncSolver::solve's cost loop",
 ]
-EXPLANATION = ("Soundness-on-normal-return chain of the VPSC solvers under contract: Constraint::slack equals the separation's slack; the final scans of "
+EXPLANATION = ("[Both copies of the solver are under contract: libvpsc (jobs without prefix) and libavoid's private copy in libavoid/vpsc.cpp (jobs libavoid_*).] "
+               "Soundness-on-normal-return chain of the VPSC solvers under contract: Constraint::slack equals the separation's slack; the final scans of "
                "IncSolver::satisfy, Solver::satisfy and Solver::refine (tail fragments, loop contracts, any m) leave no constraint with slack < -1e-10 on "
                "normal return from EVERY state the merge/split machinery could produce; solve()/IncSolver::solve() keep that up to their return and copy the "
-               "positions last; addConstraint adds an inactive constraint and nothing else.")
+               "positions last; addConstraint adds an inactive constraint and nothing else; one iteration of the merge/split loop of IncSolver::satisfy relaxes (flags) a constraint "
+               "only on evidence from its callees (cycle found, nothing to split, unsatisfiability reported).")
